@@ -123,10 +123,11 @@ let () =
          if wlimit > 0 then bump (if int_of_n o.status >= 400 then "write_fault_failed" else "write_fault_not_hit");
          if wlimit = -1 then bump (if int_of_n o.status >= 400 then "raced_failed" else "raced_succeeded");
          (* rename-fault cases (rfault stage: the source's directory is immutable, so os.Rename is
-            refused after Move's checks and after RemoveAll(dst)): the step-level model
-            MoveSteps.move_steps with its fault is compared with the observed tree; the narrow
-            selector of the known finding is (refused rename, existing destination, tree = model's) *)
-         let rfault_kf = ref "-" in
+            refused after Move's checks): the step-level model MoveSteps.move_steps with its fault
+            (old destination set aside under a temporary name and renamed back) is compared with
+            the observed tree.  The temporary name is not observable after the request; any name
+            that is new in the destination's collection gives the same model result
+            (C02_move_fault_restores), the oracle uses one that the stage's trees do not contain. *)
          let rfault () =
            let plain () = agrees_c02 root sb r o aft, spec_c02 sb o aft in
            match r.h_dest with
@@ -134,13 +135,13 @@ let () =
              (match copy_move_checks root sb r.rpath dst (string_of_chars r.h_overwrite <> "F") with
               | GOk (((ss, _), ds), _) ->
                 let sp = List.append root ss and dp = List.append root ds in
+                let tmpp = List.append (parent dp) [chars_of_string ".webdav-upload-oracle"] in
                 let failed = int_of_n o.status >= 400 in
                 bump (if failed then "rename_fault_failed" else "rename_fault_not_hit");
                 if not failed then plain ()
                 else begin
-                  let ag = move_fault_agrees sb sp dp aft in
-                  if ag && move_fault_loses sb dp then (bump "rename_fault_lost_destination"; rfault_kf := "move-rename-fault");
-                  ag, spec_c02 sb o aft
+                  if move_fault_loses sb dp then bump "rename_fault_existing_destination";
+                  move_fault_agrees sb sp dp tmpp aft, spec_c02 sb o aft
                 end
               | GErr _ -> bump "rename_fault_refused_by_checks"; plain ())
            | _ -> plain () in
@@ -158,7 +159,7 @@ let () =
               | Some (tb, ta) -> bump "spec_with_reported_tags"; spec_ok_reported tb ta root sb r o aft
               | None -> spec_ok root sb r o aft) in
          let (sb', resp) = serve root sb r in
-         verdict ~agree ~spec ~kf:!rfault_kf ~detail:(Printf.sprintf "model: %s after=%s" (show_resp resp) (show_node sb')))
+         verdict ~agree ~spec ~kf:"-" ~detail:(Printf.sprintf "model: %s after=%s" (show_resp resp) (show_node sb')))
     | L [A "usteps"; L (A "dir" :: dir); tmp; name; L (A "chunks" :: chunks); fails; status] ::
       L [A "tree"; tree] :: L (A "seen" :: seen) :: L [A "after"; after] :: _ ->
       let sb = node_of tree and aft = node_of after in
